@@ -11,7 +11,22 @@ struct Sink {
 
 static SINK: Mutex<Option<Sink>> = Mutex::new(None);
 
+struct Null;
+impl Write for Null {
+    fn write(&mut self, b: &[u8]) -> std::io::Result<usize> {
+        Ok(b.len())
+    }
+    fn flush(&mut self) -> std::io::Result<()> {
+        Ok(())
+    }
+}
+
 pub fn init(path: Option<&str>) {
+    if std::env::var("VERIF_NO_TRACE").is_ok() {
+        // no system call at all for the trace (fault injection counts write calls)
+        *SINK.lock().unwrap() = Some(Sink { w: Box::new(Null), seq: 0 });
+        return;
+    }
     let w: Box<dyn Write + Send> = match path {
         Some(p) => Box::new(std::io::BufWriter::new(
             std::fs::File::create(p).expect("cannot create trace file"),
